@@ -22,5 +22,5 @@ for name, c in REG.items():
             for o in rep.obls:
                 if o.status != 'discharged' and os.environ["DBG_GOAL"] in o.name:
                     print("GOAL", o.goal)
-                    print("PC", o.pc[-6:])
+                    print("PC", o.pc[-int(os.environ.get("DBG_PC","6")):])
                     print("MODEL", o.model)
